@@ -18,7 +18,11 @@ META = {
             "of length <=2 (quick) / <=3 (thorough) over {1,11,16,255,4096,35000} in two content classes, a "
             "200-message sequence cycling through 25 boundary lengths up to 70000; for short streams "
             "byte-wise reads, every 2-fragment split point (thorough: every 3-fragment split for 16 class "
-            "representatives) and every position of <=1 (quick) / <=2 (thorough) injected socket.timeout; key switches between every ordered pair of 16 framing x "
+            "representatives) and every position of <=1 (quick) / <=2 (thorough) injected socket.timeout, "
+            "and - new dimension 'receiver re-key pending' - the whole/byte-wise/timeout/timeout+byte-wise reads "
+            "repeated with the receiver's own re-key threshold reached (need_rekey up from the first message on; "
+            "thorough: also from the last message on), NeedRekeyException answered by calling read_message again "
+            "as Transport.run does; key switches between every ordered pair of 16 framing x "
             "compression classes at every position of a 4-message sequence (also two switches, strict-kex "
             "sequence reset on/off). Oracle: messages read == messages sent, reader never raises or stalls.",
     "note": "sender and receiver are both paramiko (symmetric bugs are C03/C04's job); payloads <= 70000 bytes; "
@@ -31,6 +35,7 @@ L_ALL = tuple(range(1, 19)) + (255, 256, 4095, 4096, 32768, 35000, 70000)
 PTYPES = (94, 2, 80, 98, 255, 100, 3)
 FRAG_SEQS = ((5, 40, 17), (1,), (16, 1, 33))
 SWITCH_LENGTHS = (9, 40, 300, 17)
+REKEY_AFTER = (1, 2)    # receiver's REKEY_PACKETS threshold in the "re-key pending" reads of the frag part
 # one representative per framing class (DESIGN 4/C01) plus 3des+etm and a second GCM, crossed with compression off/on
 CLASS_REPS = (
     ("aes128-ctr", "hmac-sha2-256"),
@@ -109,7 +114,8 @@ def report(acc, part, direction, script, read, verdict):
     cur, nsw = active_suite(script, idx if idx is not None else len(script) - 1)
     cls = P.framing_class(cur[1], cur[2]) if cur else "clear"
     z = ":zlib" if cur and cur[3] != "none" else ""
-    dims = {"framing": cls, "zlib": bool(z), "read": env_of(read), "after-key-switch": nsw > 1}
+    dims = {"framing": cls, "zlib": bool(z), "read": env_of(read), "after-key-switch": nsw > 1,
+            "rekey-pending": bool(read.get("rekey_after"))}
     if len(script) > 60:      # core.jsonable truncates long lists: store the generator instead
         case = {"dir": direction, "gen": "seq200", "suite": list(script[0][1:4]), "read": read}
     else:
@@ -121,7 +127,8 @@ def run_case(direction, script, read, stream=None, sent=None):
     if stream is None:
         stream, _chunks, sent = P.transmit(direction, script)
     r = P.receive(direction, script, stream, max_chunk=read.get("max_chunk"),
-                  cuts=read.get("cuts", ()), timeouts=read.get("timeouts", ()))
+                  cuts=read.get("cuts", ()), timeouts=read.get("timeouts", ()),
+                  rekey_after=read.get("rekey_after"))
     return stream, sent, r
 
 
@@ -200,6 +207,18 @@ def do_frag(item, acc):
             nb = len(stream)   # byte-wise: one recv call per byte
             for i in range(nb):
                 reads.append(({"timeouts": [i], "max_chunk": 1}, ("timeout-bytewise", cut_shape(chunks, i))))
+            # receiver state "re-key due" (its own packet-count threshold was reached: need_rekey is up and
+            # read_message may answer NeedRekeyException, which Transport.run answers by calling it again) crossed
+            # with the same recv answers: flag up from the first message on (1) / thorough: also only before the
+            # last message (2)
+            for rk in (REKEY_AFTER[:1] if tier == "quick" else REKEY_AFTER):
+                reads.append(({"rekey_after": rk}, ("rekey", rk, "whole")))
+                reads.append(({"rekey_after": rk, "max_chunk": 1}, ("rekey", rk, "bytewise")))
+                for i in range(n_whole):
+                    reads.append(({"rekey_after": rk, "timeouts": [i]}, ("rekey", rk, "timeout", min(i, 12))))
+                for i in range(nb):
+                    reads.append(({"rekey_after": rk, "timeouts": [i], "max_chunk": 1},
+                                  ("rekey", rk, "timeout-bytewise", cut_shape(chunks, i))))
         if tier != "quick":
             for i, j in itertools.combinations(range(n_whole + 1), 2):
                 reads.append(({"timeouts": [i, j]}, ("timeout2", min(i, 12), min(j - i, 3))))
@@ -213,6 +232,11 @@ def do_frag(item, acc):
             acc.count("recv_calls", r.recv_calls)
             acc.count("short_reads", r.short_reads)
             acc.count("timeouts_injected", r.timeouts_raised)
+            if read.get("rekey_after"):
+                if not r.rekey_pending and r.error is None and not r.waits:
+                    raise AssertionError("seam: receiver never flagged a re-key with REKEY_PACKETS=%r" % read["rekey_after"])
+                acc.count("reads_with_rekey_pending")
+                acc.count("need_rekey_signals_retried", r.rekey_signals)
             v = judge(script, sent, r)
             if v:
                 report(acc, "frag", direction, script, read, v)
@@ -288,7 +312,7 @@ def main(tier):
         "runs sender and receiver and compares the delivered list with the sent list. nontrivial = distinct "
         "(part, cipher, MAC, compression, message lengths mod cipher block size, content class, read shape "
         "[whole | bytewise | split point classified by packet index and region | index of the recv call that "
-        "timed out], switch kind/position/strict flag) tuples in which every message was delivered and compared",
+        "timed out | the same with the receiver's re-key-due flag raised after 1 or 2 packets], switch kind/position/strict flag) tuples in which every message was delivered and compared",
         ["sender and receiver are both paramiko Transports keyed from the same fixed K/H/session id",
          "recv() never returns more than asked (stream socket semantics); only socket.timeout is injected",
          "cryptography and zlib are trusted"])
@@ -296,13 +320,14 @@ def main(tier):
     ck.merge(core.pmap(items, run_item))
     P.regroup(ck, {"framing": {"ctr", "cbc", "3des", "gcm", "ctr+etm", "cbc+etm", "3des+etm"},
                    "zlib": {True, False}, "read": {"whole", "bytewise", "split", "timeout", "timeout+bytewise"},
-                   "after-key-switch": {True, False}})
+                   "after-key-switch": {True, False}, "rekey-pending": {True, False}})
     ck.extra["bound"] = {
         "suites": len(P.all_suites()), "directions": 2,
         "sequence_alphabet": list(S6), "max_sequence_len": 2 if tier == "quick" else 3,
         "long_sequence": {"messages": 200, "lengths": list(L_ALL)},
         "fragmentation_sequences": [list(s) for s in FRAG_SEQS],
         "timeouts_per_stream": 1 if tier == "quick" else 2,
+        "receiver_rekey_thresholds": list(REKEY_AFTER[:1] if tier == "quick" else REKEY_AFTER),
         "switch_classes": len(CLASS_REPS_T) * 2,
         "work_items": len(items),
     }
